@@ -201,6 +201,14 @@ func evalStaged(c stagedCase) (values []int, reported time.Duration, problem str
 			return nil, 0, fmt.Sprintf("CalculateStagedRate rejected the stages: %v", err)
 		}
 		rateFn, reported = rates.Rate, rates.Duration
+	case "builder":
+		// the CLI's builder (flag set -> staged.Rate().New): start taken from the first query
+		spec := &vlib.RunSpec{Mode: "staged", Flags: map[string]string{"stages": c.Text, "iterationFrequency": c.Freq.String(), "distribution": "none"}}
+		trig, err := vlib.BuildTrigger(spec)
+		if err != nil {
+			return nil, 0, fmt.Sprintf("the staged builder rejected the stages: %v", err)
+		}
+		rateFn, reported = trig.DryRun, trig.Duration
 	case "parse+calculator":
 		st, err := staged.ParseStages(c.Text)
 		if err != nil {
@@ -543,6 +551,9 @@ func genStagedCase(t *rapid.T) stagedCase {
 	if !c.StartGiven {
 		// the first query IS the start
 		c.Offsets = append([]int64{0}, c.Offsets...)
+		if c.Path == "calculate" && rapid.IntRange(0, 2).Draw(t, "viaBuilder") == 0 {
+			c.Path = "builder"
+		}
 	}
 	return c
 }
@@ -566,10 +577,16 @@ type rampCase struct {
 	Dur                time.Duration
 	BaseNs             int64
 	Offsets            []int64 // non-decreasing, Offsets[0] == 0 (the first query is the ramp's start)
+	// Via "builder": the trigger is built by ramp.Rate().New from a flag set that also holds the run's
+	// --max-duration (MaxDur), the way the CLI builds it; DurFlagZero: --ramp-duration 0, which the
+	// builder documents as "use --max-duration" (then Dur == MaxDur).
+	Via         string
+	MaxDur      time.Duration
+	DurFlagZero bool
 }
 
 func (c rampCase) key() string {
-	return fmt.Sprintf("%s|%s|%d|%d|%v", c.StartText, c.EndText, c.Dur, c.BaseNs, c.Offsets)
+	return fmt.Sprintf("%s|%s|%d|%d|%v|%s|%d|%v", c.StartText, c.EndText, c.Dur, c.BaseNs, c.Offsets, c.Via, c.MaxDur, c.DurFlagZero)
 }
 
 func evalRamp(c rampCase) (values []int, reported time.Duration, problem string) {
@@ -578,6 +595,22 @@ func evalRamp(c rampCase) (values []int, reported time.Duration, problem string)
 			problem = fmt.Sprintf("panicked after %d answers: %v", len(values), r)
 		}
 	}()
+	if c.Via == "builder" {
+		durFlag := c.Dur.String()
+		if c.DurFlagZero {
+			durFlag = "0s"
+		}
+		spec := &vlib.RunSpec{Mode: "ramp", Flags: map[string]string{"start-rate": c.StartText, "end-rate": c.EndText, "ramp-duration": durFlag, "distribution": "none"}}
+		spec.Opts.MaxDuration = c.MaxDur
+		trig, err := vlib.BuildTrigger(spec)
+		if err != nil {
+			return nil, 0, fmt.Sprintf("the ramp builder rejected different rates, equal units and duration >= unit (--max-duration %v, --ramp-duration %s): %v", c.MaxDur, durFlag, err)
+		}
+		for _, o := range c.Offsets {
+			values = append(values, trig.DryRun(at(c.BaseNs, o)))
+		}
+		return values, c.Dur, "" // the builder does not report a duration
+	}
 	rates, err := ramp.CalculateRampRate(c.StartText, c.EndText, "none", c.Dur, 0)
 	if err != nil {
 		return nil, 0, fmt.Sprintf("CalculateRampRate rejected a ramp with different rates, equal units and duration >= unit: %v", err)
@@ -615,8 +648,8 @@ func judgeRamp(c rampCase, values []int, reported time.Duration) string {
 }
 
 func describeRamp(c rampCase, values []int) string {
-	return fmt.Sprintf("start-rate=%q end-rate=%q ramp-duration=%v(%dns) startUnixNs=%d offsetsNs=%v answers=%v",
-		c.StartText, c.EndText, c.Dur, int64(c.Dur), c.BaseNs, c.Offsets, values)
+	return fmt.Sprintf("start-rate=%q end-rate=%q ramp-duration=%v(%dns) startUnixNs=%d offsetsNs=%v answers=%v via=%q max-duration=%v ramp-duration-flag-zero=%v",
+		c.StartText, c.EndText, c.Dur, int64(c.Dur), c.BaseNs, c.Offsets, values, c.Via, c.MaxDur, c.DurFlagZero)
 }
 
 func runRamp(section string, c rampCase) string {
@@ -656,6 +689,15 @@ func runRamp(section string, c rampCase) string {
 	}
 	if inside >= 2 {
 		cls["two-queries-inside"] = true
+	}
+	if c.Via == "builder" {
+		cls["via-builder"] = true
+		switch {
+		case c.DurFlagZero:
+			cls["via-builder-duration-from-max-duration"] = true
+		case c.MaxDur < c.Dur:
+			cls["via-builder-max-duration-shorter-than-ramp"] = true
+		}
 	}
 	nontrivial := inside >= 1
 	if nontrivial {
@@ -767,6 +809,22 @@ func genRampCase(t *rapid.T) rampCase {
 		d = rapid.Int64Range(maxStageDur, 48*int64(time.Hour)).Draw(t, "durLong")
 	}
 	c.Dur = time.Duration(d)
+	if rapid.IntRange(0, 3).Draw(t, "viaBuilder") == 0 {
+		// through the CLI's builder, whose flag set also holds --max-duration: shorter than, equal to or
+		// longer than the ramp, or the documented source of the ramp duration (--ramp-duration 0)
+		c.Via = "builder"
+		switch rapid.IntRange(0, 3).Draw(t, "maxDurKind") {
+		case 0:
+			c.MaxDur = time.Duration(rapid.Int64Range(1, d).Draw(t, "maxDurShorter"))
+		case 1:
+			c.MaxDur = c.Dur
+		case 2:
+			c.MaxDur = c.Dur + time.Duration(rapid.Int64Range(1, int64(time.Hour)).Draw(t, "maxDurLonger"))
+		default:
+			c.DurFlagZero = true
+			c.MaxDur = c.Dur
+		}
+	}
 	c.BaseNs = rapid.SampledFrom(baseInstants).Draw(t, "base")
 	n := rapid.IntRange(0, vlib.ByTier(20, 60)).Draw(t, "queries")
 	offs := make([]int64, 0, n)
